@@ -28,6 +28,16 @@ STD_VARIANTS = {
 }
 
 
+class BB(int):
+    """a block index that remembers its body (events of inlined helpers carry blocks of the
+    helper, not of the root): `ctx.where(root, ev.bb)` then reports the right source line"""
+
+    def __new__(cls, v, body):
+        o = int.__new__(cls, v)
+        o.body = body
+        return o
+
+
 class Event:
     __slots__ = ("kind", "site", "bb", "idx", "args", "result", "target", "value", "line", "ck", "body", "depth", "inlined", "chain")
 
@@ -303,6 +313,7 @@ class PathEnum:
                         ev.target = self.place(env, p)
                         ev.value = val
                         ev.body = body
+                        ev.bb = BB(ev.bb, body)
                         ev.depth = depth
                         path.events.append(ev)
                     else:
@@ -320,6 +331,7 @@ class PathEnum:
                         ev.target = self._apply(("local", p["l"]) if not (1 <= p["l"] <= body.arg_count) else ("param", p["l"]), list(names))
                         ev.value = val
                         ev.body = body
+                        ev.bb = BB(ev.bb, body)
                         ev.depth = depth
                         path.events.append(ev)
             t = blk["term"]
@@ -362,6 +374,7 @@ class PathEnum:
                 ev.ck = site.ck
                 ev.args = args
                 ev.body = body
+                ev.bb = BB(ev.bb, body)
                 ev.depth = depth
                 ev.chain = tuple((f[0], f[7]) for f in frames)
                 callee = self.prog.callee_body(site) if self.inline is not None else None
@@ -404,6 +417,7 @@ class PathEnum:
                     wev.target = args[0]
                     wev.value = wv
                     wev.body = body
+                    wev.bb = BB(wev.bb, body)
                     wev.depth = depth
                     wev.chain = ev.chain
                     path.events.append(wev)
@@ -431,6 +445,7 @@ class PathEnum:
                 ev = Event("drop", bb, "term", t["loc"]["line"])
                 ev.target = self.place(env, t["place"])
                 ev.body = body
+                ev.bb = BB(ev.bb, body)
                 ev.depth = depth
                 path.events.append(ev)
                 for s in succs:
